@@ -435,6 +435,14 @@ class Compiler(compiler.Compiler):
                                                   type_name,
                                                   module_name)
 
+                # A SIZE constraint applied to a type reference, as
+                # in "B ::= A (SIZE (2))".
+                if 'size' in type_descriptor:
+                    compiled = self.copy(compiled)
+                    compiled.set_size_range(
+                        *self.get_size_range(type_descriptor,
+                                             module_name))
+
         if 'restricted-to' in type_descriptor:
             compiled = self.set_compiled_restricted_to(compiled,
                                                        type_descriptor,
